@@ -49,7 +49,7 @@ type c14Scenario struct {
 	Stmts   []sqlgen.Stmt `json:"stmts"`
 }
 
-const msDay = int64(86400000)
+const c14MsDay = int64(86400000)
 
 func c14Gen(r *core.Rand, tier string) any {
 	sc := &c14Scenario{Seed: r.Uint64()}
@@ -83,13 +83,13 @@ func c14Gen(r *core.Rand, tier string) any {
 	}
 	switch r.Intn(4) {
 	case 0:
-		sc.T0Ms = day*msDay + msDay - int64(1+r.Intn(1500)) // within 1.5 s before midnight
+		sc.T0Ms = day*c14MsDay + c14MsDay - int64(1+r.Intn(1500)) // within 1.5 s before midnight
 	case 1:
-		sc.T0Ms = day*msDay + int64(r.Intn(86400))*1000 + 950 + int64(r.Intn(50)) // just before a second boundary
+		sc.T0Ms = day*c14MsDay + int64(r.Intn(86400))*1000 + 950 + int64(r.Intn(50)) // just before a second boundary
 	default:
-		sc.T0Ms = day*msDay + int64(r.Intn(int(msDay)))
+		sc.T0Ms = day*c14MsDay + int64(r.Intn(int(c14MsDay)))
 	}
-	jumps := []int64{1, 37, 999, 1000, 61000, 3600000, msDay, 31 * msDay, 366 * msDay, 1500 * msDay}
+	jumps := []int64{1, 37, 999, 1000, 61000, 3600000, c14MsDay, 31 * c14MsDay, 366 * c14MsDay, 1500 * c14MsDay}
 	sc.Jump1Ms = jumps[r.Intn(len(jumps))]
 	sc.Jump2Ms = sc.Jump1Ms + jumps[r.Intn(len(jumps))]
 	sc.GapMs = []int{1, 13, 400, 1000, 59000, 3600000}[r.Intn(6)]
@@ -117,7 +117,7 @@ func (e c14Eval) String() string {
 	return e.rows + "\n--state--\n" + e.state
 }
 
-func stmtArgs(st *sqlgen.Stmt) []any {
+func c14StmtArgs(st *sqlgen.Stmt) []any {
 	var args []any
 	if len(st.Named) > 0 {
 		keys := make([]string, 0, len(st.Named))
@@ -141,7 +141,7 @@ func stmtArgs(st *sqlgen.Stmt) []any {
 	return args
 }
 
-func namedArgsFix(args []any) []any {
+func c14NamedArgsFix(args []any) []any {
 	for i, a := range args {
 		if na, ok := a.(sql.NamedArg); ok {
 			if f, ok := na.Value.(float64); ok && f == float64(int64(f)) {
@@ -153,20 +153,20 @@ func namedArgsFix(args []any) []any {
 	return args
 }
 
-// evalAt executes text (inside a transaction that is rolled back) with SQLite's
+// c14EvalAt executes text (inside a transaction that is rolled back) with SQLite's
 // clock at the given instant and returns the canonical outcome.
-func evalAt(db *sql.DB, st *sqlgen.Stmt, text string, at time.Time) (c14Eval, error) {
+func c14EvalAt(db *sql.DB, st *sqlgen.Stmt, text string, at time.Time) (c14Eval, error) {
 	simclock.Set(at)
 	tx, err := db.Begin()
 	if err != nil {
 		return c14Eval{}, err
 	}
 	defer tx.Rollback()
-	r, err := tx.Query(text, namedArgsFix(stmtArgs(st))...)
+	r, err := tx.Query(text, c14NamedArgsFix(c14StmtArgs(st))...)
 	if err != nil {
 		return c14Eval{err: true}, nil
 	}
-	cols, lines, err := rowsText(r)
+	cols, lines, err := sqlhRowsText(r)
 	if err != nil {
 		return c14Eval{err: true}, nil
 	}
@@ -175,7 +175,7 @@ func evalAt(db *sql.DB, st *sqlgen.Stmt, text string, at time.Time) (c14Eval, er
 	}
 	d := ""
 	if st.Kind != "select" {
-		if d, err = dumpQ(tx); err != nil {
+		if d, err = sqlhDumpQ(tx); err != nil {
 			return c14Eval{}, err
 		}
 	}
@@ -185,51 +185,51 @@ func evalAt(db *sql.DB, st *sqlgen.Stmt, text string, at time.Time) (c14Eval, er
 }
 
 var (
-	reZeroArg  = regexp.MustCompile(`\b(date|time|datetime|julianday|unixepoch)\s*\(\s*\)`)
-	reFmtOnly  = regexp.MustCompile(`\bstrftime\s*\(\s*§s\s*\)`)
-	reNowFirst = regexp.MustCompile(`\b(date|time|datetime|julianday|unixepoch)\s*\(\s*§snow`)
-	reNowStrf  = regexp.MustCompile(`\bstrftime\s*\(\s*§s\s*,\s*§snow`)
-	reNowDiff  = regexp.MustCompile(`\btimediff\s*\([^()]*§snow`)
-	reRandom   = regexp.MustCompile(`\brandom\s*\(\s*\)`)
-	reRandBlob = regexp.MustCompile(`\brandomblob\s*\(\s*(\d+|0x[0-9a-f]+)\s*\)`)
+	c14ReZeroArg  = regexp.MustCompile(`\b(date|time|datetime|julianday|unixepoch)\s*\(\s*\)`)
+	c14ReFmtOnly  = regexp.MustCompile(`\bstrftime\s*\(\s*§s\s*\)`)
+	c14ReNowFirst = regexp.MustCompile(`\b(date|time|datetime|julianday|unixepoch)\s*\(\s*§snow`)
+	c14ReNowStrf  = regexp.MustCompile(`\bstrftime\s*\(\s*§s\s*,\s*§snow`)
+	c14ReNowDiff  = regexp.MustCompile(`\btimediff\s*\([^()]*§snow`)
+	c14ReRandom   = regexp.MustCompile(`\brandom\s*\(\s*\)`)
+	c14ReRandBlob = regexp.MustCompile(`\brandomblob\s*\(\s*(\d+|0x[0-9a-f]+)\s*\)`)
 )
 
-// residualND lists the kinds of non-deterministic call still present in a
+// c14ResidualND lists the kinds of non-deterministic call still present in a
 // (rewritten) statement text, judged on the text with literals stripped.
-func residualND(text string, orderByRandom bool) []string {
-	s := strings.ToLower(stripSQL(text))
+func c14ResidualND(text string, orderByRandom bool) []string {
+	s := strings.ToLower(sqlhStripSQL(text))
 	var out []string
-	if reZeroArg.MatchString(s) {
+	if c14ReZeroArg.MatchString(s) {
 		out = append(out, "time-zeroarg")
 	}
-	if reFmtOnly.MatchString(s) {
+	if c14ReFmtOnly.MatchString(s) {
 		out = append(out, "time-fmtonly")
 	}
-	if reNowFirst.MatchString(s) || reNowStrf.MatchString(s) || reNowDiff.MatchString(s) {
+	if c14ReNowFirst.MatchString(s) || c14ReNowStrf.MatchString(s) || c14ReNowDiff.MatchString(s) {
 		out = append(out, "time-explicit-now")
 	}
-	if !orderByRandom && reRandom.MatchString(s) {
+	if !orderByRandom && c14ReRandom.MatchString(s) {
 		out = append(out, "random")
 	}
-	if reRandBlob.MatchString(s) {
+	if c14ReRandBlob.MatchString(s) {
 		out = append(out, "randomblob")
 	}
 	return out
 }
 
-// ndClass names the violation class for a rewritten text that still holds
+// c14NDClass names the violation class for a rewritten text that still holds
 // non-deterministic calls: "not-rewritten" when at least one of them is in a
 // plain expression position (or the text cannot be analysed), otherwise
 // "not-rewritten-in-<ctx>" for calls that all sit in one special syntactic
 // context (WITH body, IS NULL operand).
-func ndClass(rw string, orderByRandom bool) (class string, rank int, residual string) {
-	res, ok := findND(rw)
+func c14NDClass(rw string, orderByRandom bool) (class string, rank int, residual string) {
+	res, ok := sqlhFindND(rw)
 	if !ok {
 		// rqlite's own parser rejects the text (Process skips such statements silently)
-		return "not-rewritten-unparsed: " + parseErrorOf(rw), 5, fmt.Sprintf("%v(unparsed)", residualND(rw, orderByRandom))
+		return "not-rewritten-unparsed: " + c14ParseErrorOf(rw), 5, fmt.Sprintf("%v(unparsed)", c14ResidualND(rw, orderByRandom))
 	}
 	if len(res) == 0 {
-		return "not-rewritten", 1, fmt.Sprintf("%v(textual)", residualND(rw, orderByRandom))
+		return "not-rewritten", 1, fmt.Sprintf("%v(textual)", c14ResidualND(rw, orderByRandom))
 	}
 	ctx := res[0].Ctx
 	for _, r := range res {
@@ -243,11 +243,11 @@ func ndClass(rw string, orderByRandom bool) (class string, rank int, residual st
 	return "not-rewritten-in-" + ctx, 5, fmt.Sprint(res)
 }
 
-var rePos = regexp.MustCompile(`^\d+:\d+: `)
+var c14RePos = regexp.MustCompile(`^\d+:\d+: `)
 
-// parseErrorOf returns the message (without position) with which rqlite's SQL
+// c14ParseErrorOf returns the message (without position) with which rqlite's SQL
 // parser rejects text, "" if it parses.
-func parseErrorOf(text string) (msg string) {
+func c14ParseErrorOf(text string) (msg string) {
 	defer func() {
 		if r := recover(); r != nil {
 			msg = fmt.Sprintf("parser panic: %v", r)
@@ -257,7 +257,7 @@ func parseErrorOf(text string) (msg string) {
 	if err == nil {
 		return ""
 	}
-	m := rePos.ReplaceAllString(err.Error(), "")
+	m := c14RePos.ReplaceAllString(err.Error(), "")
 	if i := strings.Index(m, ", found"); i > 0 {
 		m = m[:i]
 	}
@@ -279,18 +279,18 @@ func c14Run(c *core.Ctx, raw json.RawMessage) {
 	oldLocal := time.Local
 	time.Local = time.FixedZone("SIM", sc.TZMin*60)
 	defer func() { time.Local = oldLocal }()
-	seeded.Fix(fixedDraw)
+	seeded.Fix(sqlhFixedDraw)
 	defer seeded.Unfix()
 
 	// two identical scratch databases: plain SQLite for the rewritten text,
 	// constant random()/randomblob() for the original text
-	plain, err := openMemDB(plainDriver)
+	plain, err := sqlhOpenMemDB(sqlhPlainDriver)
 	if err != nil {
 		c.Discard("oracle-db: " + err.Error())
 		return
 	}
 	defer plain.Close()
-	fixed, err := openMemDB(fixedDriver)
+	fixed, err := sqlhOpenMemDB(sqlhFixedDriver)
 	if err != nil {
 		c.Discard("oracle-db: " + err.Error())
 		return
@@ -362,7 +362,7 @@ func c14Run(c *core.Ctx, raw json.RawMessage) {
 				c.Probe("feat_" + f)
 			}
 			if rw == st.SQL {
-				cl, rk, res := ndClass(rw, st.HasFeat("order-by-random"))
+				cl, rk, res := c14NDClass(rw, st.HasFeat("order-by-random"))
 				add(rk, cl, "residual=%s statement with %d non-deterministic call(s) was not changed at all: %s", res, st.ND, desc())
 				continue
 			}
@@ -384,12 +384,12 @@ func c14Run(c *core.Ctx, raw json.RawMessage) {
 		}
 		// the rewritten text must evaluate identically whenever it is applied
 		t1, t2 := t0.Add(time.Duration(sc.Jump1Ms)*time.Millisecond), t0.Add(time.Duration(sc.Jump2Ms)*time.Millisecond)
-		e1, err := evalAt(plain, st, rw, t1)
+		e1, err := c14EvalAt(plain, st, rw, t1)
 		if err != nil {
 			c.Discard("oracle-db eval: " + err.Error())
 			return
 		}
-		e2, err := evalAt(plain, st, rw, t2)
+		e2, err := c14EvalAt(plain, st, rw, t2)
 		if err != nil {
 			c.Discard("oracle-db eval: " + err.Error())
 			return
@@ -400,29 +400,29 @@ func c14Run(c *core.Ctx, raw json.RawMessage) {
 		if st.HasFeat("order-by-random") {
 			// result order is random by definition; compare as multisets
 			st.Ordered = false
-			e1, _ = evalAt(plain, st, rw, t1)
-			e2, _ = evalAt(plain, st, rw, t2)
+			e1, _ = c14EvalAt(plain, st, rw, t1)
+			e2, _ = c14EvalAt(plain, st, rw, t2)
 		}
 		if e1.String() != e2.String() {
-			cl, rk, res := ndClass(rw, st.HasFeat("order-by-random"))
+			cl, rk, res := c14NDClass(rw, st.HasFeat("order-by-random"))
 			add(rk, cl, "residual=%s rewritten statement evaluates differently at %s and %s (%s): %s", res,
-				t1.UTC().Format(time.RFC3339Nano), t2.UTC().Format(time.RFC3339Nano), firstLineDiff(e1.String(), e2.String()), desc())
+				t1.UTC().Format(time.RFC3339Nano), t2.UTC().Format(time.RFC3339Nano), c14FirstLineDiff(e1.String(), e2.String()), desc())
 			continue
 		}
-		if res := residualND(rw, st.HasFeat("order-by-random")); len(res) > 0 && st.ND > 0 {
+		if res := c14ResidualND(rw, st.HasFeat("order-by-random")); len(res) > 0 && st.ND > 0 {
 			// evaluation happened to agree (value not observable), but a call is still there
-			cl, rk, rs := ndClass(rw, st.HasFeat("order-by-random"))
+			cl, rk, rs := c14NDClass(rw, st.HasFeat("order-by-random"))
 			add(rk, cl, "residual=%s non-deterministic call left in the rewritten text: %s", rs, desc())
 			continue
 		}
 		// UPDATE/DELETE ... RETURNING: the clause itself must survive
 		retDropped := false
-		if st.HasFeat("returning") && rw != st.SQL && !strings.Contains(strings.ToLower(stripSQL(rw)), "returning") {
+		if st.HasFeat("returning") && rw != st.SQL && !strings.Contains(strings.ToLower(sqlhStripSQL(rw)), "returning") {
 			retDropped = true
 			add(6, "returning-dropped", "the RETURNING clause of the statement is missing from the rewritten text: %s", desc())
 		}
 		// faithfulness: equals the original evaluated at T0 (within the literal's precision)
-		eo, err := evalAt(fixed, st, st.SQL, t0)
+		eo, err := c14EvalAt(fixed, st, st.SQL, t0)
 		if err != nil {
 			c.Discard("oracle-db eval: " + err.Error())
 			return
@@ -452,7 +452,7 @@ func c14Run(c *core.Ctx, raw json.RawMessage) {
 						continue
 					}
 					for _, sgn := range []int64{-1, 1} {
-						ex, _ := evalAt(fixed, st, st.SQL, t0.Add(time.Duration(sgn*d)*time.Millisecond))
+						ex, _ := c14EvalAt(fixed, st, st.SQL, t0.Add(time.Duration(sgn*d)*time.Millisecond))
 						if same(ex, e1) {
 							matched = true
 							if d > maxDevMs {
@@ -477,10 +477,10 @@ func c14Run(c *core.Ctx, raw json.RawMessage) {
 		}
 		if !matched && st.HasFeat("time-exotic-mod") {
 			add(6, "meaning-changed-exotic-modifier", "a statement using the 'auto'/'unixepoch'/'julianday' modifier after 'now' changed meaning (%s): %s",
-				firstLineDiff(eo.String(), e1.String()), desc())
+				c14FirstLineDiff(eo.String(), e1.String()), desc())
 		} else if !matched {
 			add(2, "meaning-changed", "rewritten statement is not the original with its non-deterministic calls replaced by values of time T0 (%s): %s",
-				firstLineDiff(eo.String(), e1.String()), desc())
+				c14FirstLineDiff(eo.String(), e1.String()), desc())
 		}
 	}
 	c.Log.Add("max deviation %d ms", maxDevMs)
@@ -503,7 +503,7 @@ func c14Run(c *core.Ctx, raw json.RawMessage) {
 	}
 }
 
-func firstLineDiff(a, b string) string {
+func c14FirstLineDiff(a, b string) string {
 	la, lb := strings.Split(a, "\n"), strings.Split(b, "\n")
 	for i := 0; i < len(la) || i < len(lb); i++ {
 		var x, y string
